@@ -2,13 +2,13 @@
 # Build the overlay venv used by every check (offline; idempotent).
 set -e
 cd "$(dirname "$0")"
-if [ -x .venv/bin/python ] && .venv/bin/python -c "import z3, numpy, jsonschema, deal" 2>/dev/null; then
+if [ -x .venv/bin/python ] && .venv/bin/python -c "import z3, numpy, jsonschema, deal, mpmath" 2>/dev/null; then
   exit 0
 fi
 rm -rf .venv
 /venv/bin/python -m venv .venv
 .venv/bin/pip install -q --no-index --find-links /opt/veriftools/wheels --no-deps \
-   z3-solver deal icontract jsonschema jsonschema_specifications referencing rpds_py attrs asttokens typing_extensions
+   z3-solver deal icontract jsonschema jsonschema_specifications referencing rpds_py attrs asttokens typing_extensions mpmath
 SP=$(.venv/bin/python -c "import site;print(site.getsitepackages()[0])")
 echo "import site; site.addsitedir('/venv/lib/python3.12/site-packages')" > "$SP/zz_venv_overlay.pth"
 .venv/bin/python -c "import z3, numpy, scipy, jsonschema, deal; print('venv ok: z3', z3.get_version_string(), 'numpy', numpy.__version__)"
